@@ -1,6 +1,7 @@
 package worlds
 
 import (
+	"encoding/binary"
 	"context"
 	"errors"
 	"fmt"
@@ -625,6 +626,12 @@ func renderPkg(pkg tds.Package) {
 		}
 		if s, ok := f.Value().(fmt.Stringer); ok && s != nil {
 			_ = s.String()
+		}
+		// values the channel hands over as raw bytes (text pointer family: TEXT, IMAGE, UNITEXT, XML) are converted
+		// by the caller with the value parser of their data type, as a driver does; an error is fine, a panic is
+		// a crash in the caller's goroutine
+		if bs, ok := f.Value().([]byte); ok && f.Format() != nil {
+			_, _ = f.Format().DataType().GoValue(binary.LittleEndian, bs)
 		}
 	}
 }
